@@ -163,6 +163,7 @@ def run(ctx):
 
     # ---- response lists
     rlits, rcj = [], []
+    prev_resp_tps = None
     for k in range(600 if ctx.thorough else 120):
         resp_tps = []
         for i in range(rng.choice([1, 2, 3, 4, 6])):
@@ -171,9 +172,20 @@ def run(ctx):
             if rng.random() < 0.15:
                 tp["args"] = dict(tp["args"], stage="no_such_stage")
             resp_tps.append(tp)
-        resp = [TracePointConfig(ID=tp["id"], path=tp["path"], line_number=tp["line"], args=tp["args"], watches=tp["watches"],
-                                 metrics=[Metric(name="m%d" % q, type=0) for q in range(tp["nmetrics"])]) for tp in resp_tps]
-        j = dict(response=resp_tps)
+        def to_proto(tps):
+            # metric definitions may share a NAME (they differ in type): each is still one definition
+            return [TracePointConfig(ID=tp["id"], path=tp["path"], line_number=tp["line"], args=tp["args"], watches=tp["watches"],
+                                     metrics=[Metric(name="m%d" % (q // 2), type=q % 4) for q in range(tp["nmetrics"])]) for tp in tps]
+        resp = to_proto(resp_tps)
+        if k % 2 == 1 and prev_resp_tps:
+            # a FOLLOWING response of the same service: some tracepoints of the previous one unchanged (same id, same content),
+            # some removed, some edited - each response is interpreted on its own
+            keep = [tp for tp in prev_resp_tps if rng.random() < 0.6]
+            edited = [dict(tp, args=dict(tp["args"], log_msg="edited")) if rng.random() < 0.3 else tp for tp in keep]
+            resp_tps = edited + resp_tps[:rng.choice([0, 1])]
+            resp = to_proto(resp_tps)
+        prev_resp_tps = resp_tps
+        j = dict(response=resp_tps, follows_a_response_with_the_same_ids=(k % 2 == 1))
         ctx.case(dict(response=[(t["path"], t["line"], t["args"]) for t in resp_tps]),
                  nontrivial=len(resp_tps) > 1, bucket="response n=%d" % len(resp_tps))
         try:
@@ -182,11 +194,13 @@ def run(ctx):
             ctx.fail("convert_response raised %r: the whole response is lost" % (e,), j, tag="response-lost")
             continue
         # oracle: every interpretable tracepoint is installed with all its actions, the others not
-        inst = {}
+        inst, nmet = {}, {}
         for t in trigs:
             _, (lj, aj) = describe_trigger(t)
             for d in aj:
                 inst.setdefault(d["tp"], []).append((lj, d["kind"]))
+                if d["kind"] == "Metric":
+                    nmet[d["tp"]] = nmet.get(d["tp"], 0) + d["nmetrics"]
         for tp in resp_tps:
             a = tp["args"]
             stage = a.get("stage") or ("method_start" if ("method_name" in a or a.get("span") == "method") else "line_start")
@@ -201,6 +215,9 @@ def run(ctx):
             if got != sorted(want):
                 ctx.fail("tracepoint %s of a %d-tracepoint response has actions %r installed, its arguments ask for %r" % (
                     tp["id"], len(resp_tps), got, want), j, tag="response-actions")
+            if tp["nmetrics"] and nmet.get(tp["id"], 0) != tp["nmetrics"]:
+                ctx.fail("tracepoint %s defines %d metrics (some share a name and differ in type), its metric action holds %d" % (
+                    tp["id"], tp["nmetrics"], nmet.get(tp["id"], 0)), j, tag="response-metrics")
             wl = ("line", tp["path"], tp["line"]) if stage.startswith("line") else ("func", tp["path"], a.get("method_name"))
             if any(l != wl for l, _k in inst.get(tp["id"], [])):
                 ctx.fail("tracepoint %s installed at %r, configured %r" % (tp["id"], inst[tp["id"]], wl), j, tag="response-placement")
